@@ -120,6 +120,11 @@ def _chain(body: list[ast.stmt], start: str, step: Callable[[str], str], self_ca
         ast.fix_missing_locations(st)
     leaves = decision_tree(it, resolve="calls", alias_filter=lambda st: False)
     live = {v for v in carried for lf in leaves if any(f"{v}__in" in k for k in lf.assign) or any(f"{v}__in" in norm(s) for s in lf.stmts[len(entry):])}
+    for x in carried:  # the end of the chain recognised by truthiness: an element that is falsy (__len__ / __bool__) ends it early
+        for lf in leaves:
+            for k in lf.assign:
+                if k in (f"{x}__in", step(f"{x}__in")):
+                    return ChainVerdict(False, f"the end of the chain is detected by the truthiness of `{k.replace('__in', '')}` (a falsy element stops it early): `is None` required", "truthiness", len(leaves))
     unsupported: list[str] = []
     for x in carried:
         if live - {x}:
